@@ -15,7 +15,7 @@ DEVIATIONS = [
     "wrap-value", "wrap-formal", "record-array", "multi-member", "str-typed", "int-native", "int-string-lexical",
     "int-as-long", "float-native", "float-string-lexical", "bool-typed", "bool-typed-01", "bool-json-in-$",
     "lang-with-type", "time-Z", "prefix-in-bundle-too", "prefix-bundle-only", "reverse-keys", "anon-ids-named",
-    "default-ns",
+    "default-ns", "members-in-one-record-array",
 ]
 
 
@@ -116,7 +116,28 @@ def container(records, namer, sites, anon):
     # group memberships with the same collection for the multi-member spelling
     recs = list(records)
     merged = []
-    if "multi-member" in sites.dialect:
+    if "members-in-one-record-array" in sites.dialect and sites.on("members-in-one-record-array"):
+        # all anonymous memberships of the container as ONE record array under one blank identifier:
+        # an element per collection, listing its members (several -> array), multi-member elements first
+        groups = OrderedDict()
+        rest = []
+        for r in recs:
+            t, i, attrs = r
+            d = dict(attrs)
+            if t == PROV + "Membership" and i is None and set(d) == {PROV + "collection", PROV + "entity"}:
+                groups.setdefault(d[PROV + "collection"], []).append(d[PROV + "entity"])
+            else:
+                rest.append(r)
+        recs = rest
+        if groups:
+            elements = []
+            for coll, members in sorted(groups.items(), key=lambda kv: -len(kv[1])):
+                ms = [namer.name(m[1]) for m in members]
+                elements.append(OrderedDict([("prov:collection", namer.name(coll[1])),
+                                             ("prov:entity", ms if len(ms) > 1 else ms[0])]))
+            anon[0] += 1
+            out.setdefault("hadMember", OrderedDict())["_:m%d" % anon[0]] = elements if len(elements) > 1 else elements[0]
+    elif "multi-member" in sites.dialect:
         groups = OrderedDict()
         rest = []
         for r in recs:
